@@ -37,6 +37,7 @@ Lemma fold_pair_snd (ms : list (nat * nat)) : forall s d,
 Proof. induction ms as [|m r IH]; intros s d; cbn [fold_left fst snd]; [reflexivity|]. apply IH. Qed.
 
 Ltac env_cbn := cbn [eexec eeval eceval eget String.eqb Ascii.eqb Bool.eqb c_meth c_cls c_entry fst snd].
+Ltac env_cbn_in H := cbn [eexec eeval eceval eget String.eqb Ascii.eqb Bool.eqb c_meth c_cls c_entry fst snd] in H.
 
 Lemma fold_both (ms : list (nat * nat)) : Forall (fun m => 1 <= fst m) ms -> forall s d,
   fold_left (fun (x : nat * nat) (m : nat * nat) => (fst x + (2 * fst m - 1), if negb (fst m =? 1) then snd x + snd m else snd x)) ms (s, d)
@@ -47,43 +48,52 @@ Proof.
 Qed.
 
 Ltac formA_tac methods Har :=
+  let F1a := fresh "F1a" in let F1b := fresh "F1b" in let F2a := fresh "F2a" in let F2b := fresh "F2b" in
   let env1 := fresh "env1" in let E1 := fresh "E1" in let R1 := fresh "R1" in
   let env2 := fresh "env2" in let E2 := fresh "E2" in let R2a := fresh "R2a" in let R2b := fresh "R2b" in
   match goal with |- context [efor ?st methods ?env0] =>
     destruct (efor_sim st (fun s m => s + 2 * fst m - 1)
-                (fun env s => eget env "slots_and_strides_size" = Some s)) with (xs := methods) (env := env0) (x := 0)
-      as (env1 & E1 & R1);
-    [ intros [? ?] ? ? ?H; env_cbn; rewrite H; env_cbn; eexists; split; [reflexivity|]; env_cbn; reflexivity
-    | reflexivity | ]
+                (fun env s => eget env "slots_and_strides_size" = Some s /\ eget env "decode_size" = eget env0 "decode_size" /\ eget env "encode_size" = eget env0 "encode_size"))
+        with (xs := methods) (env := env0) (x := 0)
+      as (env1 & E1 & R1 & F1a & F1b);
+    [ intros [? ?] ? ? [?H [?G1 ?G2]]; env_cbn; rewrite H; env_cbn; eexists; split; [reflexivity|]; env_cbn; repeat split; assumption || reflexivity
+    | repeat split; reflexivity | ]
   end;
   rewrite E1; clear E1; env_cbn;
   match goal with |- context [efor ?st methods ?env0] =>
     destruct (efor_sim st (fun (x : nat * nat) (m : nat * nat) => (fst x, if fst m =? 1 then snd x else snd x + snd m))
-                (fun env x => eget env "slots_and_strides_size" = Some (fst x) /\ eget env "dispatch_tables_size" = Some (snd x)))
+                (fun env x => eget env "slots_and_strides_size" = Some (fst x) /\ eget env "dispatch_tables_size" = Some (snd x) /\
+                              eget env "decode_size" = eget env0 "decode_size" /\ eget env "encode_size" = eget env0 "encode_size"))
       with (xs := methods) (env := env0) (x := (fold_left (fun s m => s + 2 * fst m - 1) methods 0, 0))
-      as (env2 & E2 & R2a & R2b);
-    [ intros [?a ?t] ? [? ?] [?H1 ?H2]; env_cbn; cbn [fst snd] in *;
-      destruct (a =? 1); env_cbn; rewrite ?H2; env_cbn; eexists; (split; [reflexivity|]); env_cbn; split; assumption || reflexivity
-    | split; [env_cbn; exact R1 | reflexivity] | ]
+      as (env2 & E2 & R2a & R2b & F2a & F2b);
+    [ intros [?a ?t] ? [? ?] [?H1 [?H2 [?G1 ?G2]]]; env_cbn; cbn [fst snd] in *;
+      destruct (a =? 1); env_cbn; rewrite ?H2; env_cbn; eexists; (split; [reflexivity|]); env_cbn; repeat split; assumption || reflexivity
+    | repeat split; first [env_cbn; exact R1 | reflexivity] | ]
   end;
   rewrite E2; clear E2; env_cbn;
   rewrite fold_pair_snd in R2a, R2b; cbn [fst snd] in R2a, R2b;
-  fold (sas_of methods) in R2a; fold (dts_of methods) in R2b; clear R1.
+  fold (sas_of methods) in R2a; fold (dts_of methods) in R2b; clear R1;
+  env_cbn_in F2a; env_cbn_in F2b; rewrite ?F1a in F2a; rewrite ?F1b in F2b; env_cbn_in F2a; env_cbn_in F2b.
 
 Ltac formB_tac methods Har :=
+  let F2a := fresh "F2a" in let F2b := fresh "F2b" in
   let env2 := fresh "env2" in let E2 := fresh "E2" in let R2a := fresh "R2a" in let R2b := fresh "R2b" in
   match goal with |- context [efor ?st methods ?env0] =>
-    destruct (efor_sim st (fun (x : nat * nat) (m : nat * nat) => (fst x + (2 * fst m - 1), if negb (fst m =? 1) then snd x + snd m else snd x))
-                (fun env x => eget env "slots_and_strides_size" = Some (fst x) /\ eget env "dispatch_tables_size" = Some (snd x)))
+    destruct (efor_sim_P (fun m => 1 <= fst m) st
+                (fun (x : nat * nat) (m : nat * nat) => (fst x + (2 * fst m - 1), if negb (fst m =? 1) then snd x + snd m else snd x))
+                (fun env x => eget env "slots_and_strides_size" = Some (fst x) /\ eget env "dispatch_tables_size" = Some (snd x) /\
+                              eget env "decode_size" = eget env0 "decode_size" /\ eget env "encode_size" = eget env0 "encode_size"))
       with (xs := methods) (env := env0) (x := (0, 0))
-      as (env2 & E2 & R2a & R2b);
-    [ intros [?a ?t] ? [? ?] [?H1 ?H2]; env_cbn; cbn [fst snd] in *; rewrite ?H1; env_cbn;
-      destruct (a =? 1); cbn [negb]; env_cbn; rewrite ?H2; env_cbn; eexists; (split; [reflexivity|]); env_cbn; split; assumption || reflexivity
-    | split; reflexivity | ]
+      as (env2 & E2 & R2a & R2b & F2a & F2b);
+    [ intros [?a ?t] ? [?s ?d] ?Pa [?H1 [?H2 [?G1 ?G2]]]; env_cbn; cbn [fst snd] in *; rewrite ?H1; env_cbn; rewrite ?H2; env_cbn;
+      destruct (a =? 1); cbn [negb]; env_cbn; rewrite ?H1, ?H2; env_cbn; eexists; (split; [reflexivity|]); env_cbn;
+      repeat split; first [assumption | reflexivity | (f_equal; lia)]
+    | exact Har | repeat split; reflexivity | ]
   end;
   rewrite E2; clear E2; env_cbn;
   rewrite (fold_both methods Har) in R2a, R2b; cbn [fst snd] in R2a, R2b;
-  fold (sas_of methods) in R2a; fold (dts_of methods) in R2b.
+  fold (sas_of methods) in R2a; fold (dts_of methods) in R2b;
+  env_cbn_in F2a; env_cbn_in F2b.
 
 Section Sizes.
   Variables (methods : list (nat * nat)) (classes : list (list (nat * nat * nat))).
@@ -111,7 +121,7 @@ Section Sizes.
                                 eget env "encode_vtbl_size" = Some esz /\ eget env "decode_vtbl_size" = Some dsz /\ eget env "decode_lead" = Some lead /\
                                 eget env "decode_size" = Some decode_size /\ eget env "encode_size" = Some encode_size))
         with (xs := classes) (env := env0) (x := (0, 0, 0))
-        as (env3 & E3 & R3); [ | env_cbn; repeat split; assumption || reflexivity | ]
+        as (env3 & E3 & R3); [ | env_cbn; repeat split; first [assumption | reflexivity | (rewrite ?F2a, ?F2b; reflexivity)] | ]
     end.
     { intros cl env [[esz dsz] lead] (H1 & H2 & H3 & H4 & H5 & H6 & H7). env_cbn. rewrite H3. env_cbn.
       unfold lead_class.
